@@ -426,24 +426,32 @@ C14arrow_OK(ev) ==
      /\ HasCls(pe, "filled") /\ Len(pts) = 3 /\ IsPlainLine(le)
      /\ (ArrowGeom(LP1(le), LP2(le), pts, ArrowCell(a)) \/ ArrowGeom(LP2(le), LP1(le), pts, ArrowCell(a)))
 
-\* ev.bullet = [ch (* o O), pos ("start" | "end" | "mid"), len, k, n]: a horizontal line of dashes
+\* ev.bullet = [ch (star, o, O), pos ("start" | "end" | "mid"), len, k, n, dir ("h": a run of dashes, "v": a run of bars)]
 BulletRows(b) ==
   [i \in 1..b.n |-> <<>>] \o
-  << Rep(SP, b.k) \o (CASE b.pos = "start" -> <<b.ch>> \o Rep(DASH, b.len)
-                        [] b.pos = "end" -> Rep(DASH, b.len) \o <<b.ch>>
-                        [] OTHER -> Rep(DASH, b.len) \o <<b.ch>> \o Rep(DASH, b.len)) >>
-BulletCol(b) == IF b.pos = "start" THEN b.k ELSE b.k + b.len
+  (IF b.dir = "h"
+   THEN << Rep(SP, b.k) \o (CASE b.pos = "start" -> <<b.ch>> \o Rep(DASH, b.len)
+                              [] b.pos = "end" -> Rep(DASH, b.len) \o <<b.ch>>
+                              [] OTHER -> Rep(DASH, b.len) \o <<b.ch>> \o Rep(DASH, b.len)) >>
+   ELSE LET col == CASE b.pos = "start" -> <<b.ch>> \o Rep(BAR, b.len)
+                     [] b.pos = "end" -> Rep(BAR, b.len) \o <<b.ch>>
+                     [] OTHER -> Rep(BAR, b.len) \o <<b.ch>> \o Rep(BAR, b.len) IN
+        [i \in 1..Len(col) |-> Rep(SP, b.k) \o <<col[i]>>])
+BulletIdx(b) == IF b.pos = "start" THEN 0 ELSE b.len         \* position of the bullet along the run (0-based)
 MarkerClass(ch) == IF ch = 42 THEN "marked_circle" ELSE IF ch = 111 THEN "marked_open_circle" ELSE "marked_big_open_circle"
 C14bullet_OK(ev) ==
   LET b == ev.bullet
-      centre == <<(BulletCol(b) * CW + 4) * MILLI, (b.n * CH + 8) * MILLI>>
+      centre == IF b.dir = "h" THEN <<((b.k + BulletIdx(b)) * CW + 4) * MILLI, (b.n * CH + 8) * MILLI>>
+                ELSE <<(b.k * CW + 4) * MILLI, ((b.n + BulletIdx(b)) * CH + 8) * MILLI>>
       marked(e) == \/ (HasCls(e, "end_" \o MarkerClass(b.ch)) /\ <<e.n[3], e.n[4]>> = centre)
                    \/ (HasCls(e, "start_" \o MarkerClass(b.ch)) /\ <<e.n[1], e.n[2]>> = centre) IN
   /\ ev.doc.wf = 1 /\ ev.rows = BulletRows(b)
   /\ \E i \in Idx(ev.doc) : IsLine(ev.doc.elems[i]) /\ marked(ev.doc.elems[i])
   /\ \A i \in Idx(ev.doc) : IsLine(ev.doc.elems[i]) \/ IsText(ev.doc.elems[i])
   /\ \A i \in OfKind(ev.doc, "text") : b.ch \notin RangeOf(ev.doc.elems[i].s)        \* the bullet is not shown as text
-  /\ \A i \in Idx(ev.doc) : IsLine(ev.doc.elems[i]) => ev.doc.elems[i].n[2] = centre[2] /\ ev.doc.elems[i].n[4] = centre[2]
+  /\ \A i \in Idx(ev.doc) : IsLine(ev.doc.elems[i]) =>                               \* every line lies on the run's axis
+        IF b.dir = "h" THEN ev.doc.elems[i].n[2] = centre[2] /\ ev.doc.elems[i].n[4] = centre[2]
+        ELSE ev.doc.elems[i].n[1] = centre[1] /\ ev.doc.elems[i].n[3] = centre[1]
 
 \* ev.outline = [k, n, w, h, tl, tr, bl, br]: a rounded outline (interior w x h) with a two-dash stub on
 \* the right side of its first interior row, so that it is not endorsed as a rect
